@@ -210,6 +210,12 @@ def canon_atom(a: ast.AST):
                 return (f"{norm(l)} is not None", not pol)
             if isinstance(op, ast.IsNot):
                 return (f"{norm(l)} is not None", pol)
+        if isinstance(op, (ast.Eq, ast.NotEq)) and not (isinstance(r, ast.Constant) and r.value == 0):
+            # == is symmetric: one operand order (constants last, otherwise by text)
+            lt, rt = norm(l), norm(r)
+            if isinstance(l, ast.Constant) or (not isinstance(r, ast.Constant) and rt < lt):
+                lt, rt = rt, lt
+            return (f"{lt} == {rt}", pol if isinstance(op, ast.Eq) else not pol)
         if isinstance(op, ast.NotEq):
             return (f"{norm(l)} == {norm(r)}", not pol)
         if isinstance(op, ast.IsNot):
@@ -436,6 +442,14 @@ def rule_guards(rep: Report, repo: Repo):
         if key not in by_func:
             from .sem import Scope
             f = repo.find(f"{mod}::{q}", RULE)
+            # a rejection may have been moved into an extracted private helper: then the function is read with such helpers seen through
+            helpers_raising = {g.name for g in repo.trees[mod].body if isinstance(g, ast.FunctionDef) and g.name.startswith("_")
+                               and any(isinstance(x, ast.Raise) for x in ast.walk(g))}
+            if any(isinstance(c, ast.Call) and call_name(c) in helpers_raising for c in ast.walk(f)):
+                try:
+                    f = repo.find_expanded(f"{mod}::{q}", RULE)
+                except AnalysisError:
+                    pass
             _SCOPE["scope"] = Scope(repo.trees[mod], f)
             inv = []
             for r, e in raises_in(f):
@@ -483,6 +497,14 @@ def rule_guards(rep: Report, repo: Repo):
         if not related and unrelated:
             raise AnalysisError(RULE, f"{mod}::{q} guard `{gid}` ({what}): no raise has the expected atoms {atoms_c}, but `raise {exc}` "
                                       f"statements with conditions in another form exist: {near}")
+        # the rejection may live in a helper the function calls (and that could not be seen through)
+        called = {call_name(c) for c in ast.walk(f) if isinstance(c, ast.Call)}
+        elsewhere = [g.name for g in repo.trees[mod].body if isinstance(g, ast.FunctionDef) and g.name in called and g.name.startswith("_")
+                     and any(e_ == exc for _r, e_ in raises_in(g))]
+        known_helpers = {"_convert_if_zero", "_check_orthonormality", "_normalize_subspace_eigenvectors"}
+        if [g for g in elsewhere if g not in known_helpers] and not related:
+            raise AnalysisError(RULE, f"{mod}::{q} guard `{gid}` ({what}): not found in {q} itself; helpers it calls raise {exc} "
+                                      f"({[g for g in elsewhere if g not in known_helpers]}) and were not seen through")
         rep.fail(RULE, f"{mod}::{q} guard `{gid}` missing or weakened: {what} must raise {exc}",
                  f"no `raise {exc}` in {q} has the required truth table over atoms {atoms_c}; candidates: {near}",
                  repo.loc(mod, f))
@@ -522,6 +544,66 @@ def _range_values(it, subst):
     if None in vals:
         return None
     return list(range(*vals))
+
+
+def _iter_values(it, subst):
+    """Concrete values of an iterable over integer ranges: range(...), and the itertools combinators the loops over element /
+    block positions are written with (product, combinations, combinations_with_replacement, permutations, pairwise, zip,
+    enumerate, reversed, list / tuple / sorted of those).  None when the expression is outside that language."""
+    import itertools
+    if isinstance(it, (ast.Tuple, ast.List)):
+        vals = [_int_eval(e, subst) for e in it.elts]
+        return None if None in vals else list(vals)
+    if not (isinstance(it, ast.Call) and not it.keywords) and not (isinstance(it, ast.Call) and call_name(it) in ("product", "itertools.product")):
+        return None
+    name = (call_name(it) or "").split(".")[-1]
+    if name == "range":
+        return _range_values(it, subst)
+    args = [_iter_values(a, subst) for a in it.args if isinstance(a, (ast.Call, ast.Tuple, ast.List))]
+    ints = [_int_eval(a, subst) for a in it.args if not isinstance(a, (ast.Call, ast.Tuple, ast.List))]
+    if any(a is None for a in args) or any(a is None for a in ints):
+        return None
+    if name == "product":
+        rep_ = [k for k in it.keywords if k.arg == "repeat"]
+        if len(rep_) != len(it.keywords):
+            return None
+        r = _int_eval(rep_[0].value, subst) if rep_ else 1
+        return None if r is None or ints else list(itertools.product(*args, repeat=r))
+    if name in ("combinations", "combinations_with_replacement", "permutations") and len(args) == 1 and len(ints) == 1:
+        return list(getattr(itertools, name)(args[0], ints[0]))
+    if name == "pairwise" and len(args) == 1 and not ints:
+        return list(itertools.pairwise(args[0]))
+    if name == "zip" and args and not ints:
+        return list(zip(*args))
+    if name == "enumerate" and len(args) == 1 and len(ints) <= 1:
+        return list(enumerate(args[0], *ints))
+    if name in ("reversed", "list", "tuple", "sorted") and len(args) == 1 and not ints:
+        return list({"reversed": reversed, "sorted": sorted}.get(name, list)(args[0]))
+    return None
+
+
+def loop_points(loop: ast.For, subst: dict, rule: str, what: str, depth: int = 0):
+    """The leaves of a loop nest over integer positions: list of (binding of the loop variables, statements of the innermost
+    body), in execution order.  A loop whose body is a single `for` is descended into."""
+    tgt = loop.target
+    names = [tgt.id] if isinstance(tgt, ast.Name) else ([e.id for e in tgt.elts] if isinstance(tgt, ast.Tuple) and all(isinstance(e, ast.Name) for e in tgt.elts) else None)
+    if names is None:
+        raise AnalysisError(rule, f"{what}: loop target `{norm(tgt)}` not understood")
+    vals = _iter_values(loop.iter, subst)
+    if vals is None:
+        raise AnalysisError(rule, f"{what}: loop `for {norm(tgt)} in {norm(loop.iter)[:60]}` is not closed over the integer grid")
+    out = []
+    for v in vals:
+        tup = (v,) if isinstance(tgt, ast.Name) else tuple(v)
+        if len(tup) != len(names) or not all(isinstance(x, int) for x in tup):
+            raise AnalysisError(rule, f"{what}: loop `for {norm(tgt)} in {norm(loop.iter)[:60]}` does not bind integers to its targets")
+        b = dict(zip(names, tup))
+        if len(loop.body) == 1 and isinstance(loop.body[0], ast.For) and depth < 3:
+            for b2, body in loop_points(loop.body[0], {**subst, **b}, rule, what, depth + 1):
+                out.append(({**b, **b2}, body))
+        else:
+            out.append((b, loop.body))
+    return out
 
 
 def rule_h0_block_diagonal(rep: Report, repo: Repo):
@@ -571,13 +653,9 @@ def rule_h0_block_diagonal(rep: Report, repo: Repo):
     else:
         inner = outer = lp[0]
         I, J = (norm(e) for e in outer.target.elts)
-        it = outer.iter
-        if not (isinstance(it, ast.Call) and call_name(it) in ("product", "itertools.product") and len(it.args) == 2 and not it.keywords):
-            raise AnalysisError(R, f"pair loop iterates `{norm(it)[:60]}`: not understood")
-        r0, r1 = _range_values(it.args[0], base), _range_values(it.args[1], base)
-        if r0 is None or r1 is None:
-            raise AnalysisError(R, f"pair loop ranges `{norm(it)[:60]}` are not closed over the block grid")
-        points = [(i, j) for i in r0 for j in r1]
+        points = _iter_values(outer.iter, base)
+        if points is None or not all(isinstance(p_, tuple) and len(p_) == 2 for p_ in points):
+            raise AnalysisError(R, f"pair loop iterates `{norm(outer.iter)[:60]}`: not closed over the block grid")
     visited = {}
     guard_rows = set()
     for herm in (False, True):
